@@ -55,6 +55,10 @@ def _compare(mon, a, b, at, r0, fit, sigs, hist, metrics, tag):
         a_, b_ = at.ends(k)
         loc = max(abs(at.J[a_]), abs(at.J[b_])) / abs(at.J[a_] - at.J[b_])
         eps = fb.eps_class(fit, at.PHI[k], r0.ks[k] + 2, loc)
+        if getattr(r0, "kinked", None) == k:
+            # neither a line nor an arc: the fit is an iterative least-squares estimate (converged to MINPACK's xtol 1.5e-8),
+            # whose last digits depend on the order of the points
+            eps = max(eps, 1e-7)
         epsmax = max(epsmax, eps)
         if cb is None or abs(ca - cb) > 20 * eps:
             mon.fail("coefficient", "same coefficient for every (junction, interface)", ref=[ca.real, ca.imag],
@@ -116,6 +120,7 @@ def _geometry_extras(at, r, sseed, mode):
     va, vb, v2 = r.vertices[ids[0]], r.vertices[ids[-1]], r.vertices[ids[2]]
     dx, dy = vb.x - va.x, vb.y - va.y
     v2.x, v2.y = float(v2.x - 0.05 * dy), float(v2.y + 0.05 * dx)
+    r.kinked = k
     return True
 
 
